@@ -1163,10 +1163,15 @@ def _iter_leftmost_one(ctx, roles, v, info, rules):
             ctx.check(shape, "ITER-LM", b, "absolute-offsets:" + tag, b.loc(pbi),
                       "positions must be absolute: enumerate() applied to the whole haystack, then skip(self.pos); found %s" % show(recv))
         else:
-            shape = recv[0] == "call" and recv[1].endswith("::chars") and recv[2][0][0] == "call" and \
-                recv[2][0][1] == STR_GET_UNCHECKED
+            # haystack[self.pos..] through the checked `str::get(..)?` (the range is re-validated on every call because AsRef need
+            # not return the same string twice) or, historically, `get_unchecked`
+            sl = recv[2][0] if (recv[0] == "call" and recv[1].endswith("::chars") and recv[2]) else None
+            if sl is not None and sl[0] == "payload":
+                sl = sl[1]
+            shape = sl is not None and sl[0] == "call" and isinstance(sl[1], str) and sl[1].split("@")[0] in (STR_GET_UNCHECKED, "core::str::get") \
+                and len(sl[2]) == 2
             if shape:
-                rng = recv[2][0][2][1]
+                rng = sl[2][1]
                 shape = rng[0] == "agg" and rng[1] == "core::ops::RangeFrom" and dict(rng[3])["start"][0] == "field" and \
                     dict(rng[3])["start"][3] == "pos"
             ctx.check(shape, "ITER-LM", b, "suffix-from-pos:" + tag, b.loc(pbi),
